@@ -168,6 +168,7 @@ int read_header(sqfs_istream_t *fp, tar_header_decoded_t *out)
 {
 	unsigned int set_by_pax = 0;
 	bool prev_was_zero = false;
+	bool have_ext_hdr = false;
 	sqfs_u64 pax_size;
 	tar_header_t hdr;
 	int version, ret;
@@ -182,8 +183,12 @@ int read_header(sqfs_istream_t *fp, tar_header_decoded_t *out)
 			goto fail;
 		}
 
-		if ((size_t)ret < sizeof(hdr))
+		if ((size_t)ret < sizeof(hdr)) {
+			/* in the middle of a header or of a multi header entry */
+			if (ret > 0 || have_ext_hdr)
+				goto fail_eof;
 			goto out_eof;
+		}
 
 		if (is_memory_zero(&hdr, sizeof(hdr))) {
 			if (prev_was_zero)
@@ -212,6 +217,7 @@ int read_header(sqfs_istream_t *fp, tar_header_decoded_t *out)
 			if (out->link_target == NULL)
 				goto fail;
 			set_by_pax |= PAX_SLINK_TARGET;
+			have_ext_hdr = true;
 			continue;
 		case TAR_TYPE_GNU_PATH:
 			if (read_number(hdr.size, sizeof(hdr.size), &pax_size))
@@ -223,6 +229,7 @@ int read_header(sqfs_istream_t *fp, tar_header_decoded_t *out)
 			if (out->name == NULL)
 				goto fail;
 			set_by_pax |= PAX_NAME;
+			have_ext_hdr = true;
 			continue;
 		case TAR_TYPE_PAX_GLOBAL:
 			if (read_number(hdr.size, sizeof(hdr.size), &pax_size))
@@ -245,6 +252,7 @@ int read_header(sqfs_istream_t *fp, tar_header_decoded_t *out)
 			set_by_pax = 0;
 			if (read_pax_header(fp, pax_size, &set_by_pax, out))
 				goto fail;
+			have_ext_hdr = true;
 			continue;
 		case TAR_TYPE_GNU_SPARSE:
 			free_sparse_list(out->sparse);
@@ -279,6 +287,9 @@ int read_header(sqfs_istream_t *fp, tar_header_decoded_t *out)
 out_eof:
 	clear_header(out);
 	return 1;
+fail_eof:
+	fputs("Reading tar header: unexpected end-of-file.\n", stderr);
+	goto fail;
 fail_slink_len:
 	fprintf(stderr, "rejecting GNU symlink header with size %lu\n",
 		(unsigned long)pax_size);
